@@ -212,7 +212,9 @@ def denoteItems : List (List Nat) → List Int → Option (List (Q × Bool × In
     | _, _ => none
 
 /-- the interval of acceptable results for a text `['-'] item (' ' item)*`:
-    exact items contribute exactly `n·f`; an item with a fractional/exponent numeral contributes
+    an item whose numeral is a plain integer (digits only, ANY length) contributes exactly `n·f`
+    (tolerance 0; the driver clamps the exact sum to the Duration range); an item with a
+    fractional/exponent numeral contributes
     trunc(q·f) within ± (1 ns + 1 ulp of the product) — the value "it denotes" up to the rounding of
     the documented f64 evaluation (`Unit * f64`, doc example `Unit::Day * 10.598`). -/
 def denote (s : List Nat) : Option Denoted :=
@@ -227,9 +229,37 @@ def denote (s : List Nat) : Option Denoted :=
       let (q, isInt, f) := it
       let p := q.num * f.toNat
       let t : Int := (p / q.den : Nat)
-      let ex := isInt && q.den == 1 && exactInBinary64 p
+      -- EVERY plain integer numeral (any number of digits) denotes exactly n·unit: tolerance 0
+      let ex := isInt && q.den == 1
       let tol : Int := if ex then 0 else 1 + (ulpCeilNs p q.den : Nat)
       (a.1 + t - tol, a.2.1 + t + tol, a.2.2 && ex)) (0, 0, true)
     some (if neg then ⟨-acc.2.1, -acc.1, acc.2.2, its.length⟩ else ⟨acc.1, acc.2.1, acc.2.2, its.length⟩)
+
+-- ------------------------------------------------------------------------------------------
+-- blanks
+
+/-- Unicode White_Space (what "the parser trims" means), written out here; `Props/C11` pins the
+    table dumped from the Rust std to it -/
+def whiteSpace : List Nat :=
+  [9, 10, 11, 12, 13, 32, 133, 160, 5760, 8192, 8193, 8194, 8195, 8196, 8197, 8198, 8199, 8200, 8201, 8202,
+   8232, 8233, 8239, 8287, 12288]
+
+def stripLeft : List Nat → List Nat
+  | [] => []
+  | c :: cs => if whiteSpace.contains c then stripLeft cs else c :: cs
+
+/-- runs of U+0020 collapsed to a single one -/
+def collapse : List Nat → List Nat
+  | [] => []
+  | [c] => [c]
+  | a :: b :: t => if a = 32 ∧ b = 32 then collapse (b :: t) else a :: collapse (b :: t)
+
+/-- the unpadded form of a text: white space removed at both ends, runs of blanks collapsed.
+    A padded text must parse to the value of its unpadded form, or be rejected. -/
+def unpad (s : List Nat) : List Nat := collapse (stripLeft (stripLeft s).reverse).reverse
+
+/-- white space removed at both ends only ("the parser trims": such a text must parse to the value
+    of the trimmed text, an error is not acceptable) -/
+def trimEnds (s : List Nat) : List Nat := (stripLeft (stripLeft s).reverse).reverse
 
 end Hifi.Spec.DurText
